@@ -159,6 +159,8 @@ type c25Req struct {
 	maxSess  int
 	hold     bool
 	interact bool
+	hashBad  bool   // password_hash is configured but is not a parseable bcrypt hash
+	HashKind string `json:"password_hash_shape,omitempty"`
 	rawMeta  []byte // hand-built META document (optional keys really absent); nil = EncodeMeta
 	Doc      string `json:"meta_document,omitempty"`
 }
@@ -171,6 +173,9 @@ func c25Logger() *slog.Logger { return slog.New(slog.NewTextHandler(io.Discard, 
 func c25Model(q *c25Req) string {
 	if !q.Enabled {
 		return "disabled"
+	}
+	if q.PwSet && q.hashBad {
+		return "unusable-password-hash" // a hash is configured but nothing can match it: nothing may start
 	}
 	if q.PwSet && q.pwSent != q.pwPlain {
 		return "bad-password"
@@ -481,7 +486,7 @@ func (e *c25Env) gen(rng *verifkit.Rand, ci int) *c25Req {
 	// start a marker near 10 %, the rest of the budget goes to requests the model forbids
 	classes := []string{"valid", "valid", "disabled", "bad-password", "bad-password", "not-whitelisted", "not-whitelisted", "not-whitelisted",
 		"path-command", "path-command", "metachar-arg", "metachar-arg", "metachar-arg", "absolute-arg", "absolute-arg",
-		"wildcard", "empty-whitelist", "odd-whitelist", "soup", "soup"}
+		"wildcard", "empty-whitelist", "odd-whitelist", "soup", "soup", "unusable-hash", "unusable-hash", "other-password-hash"}
 	q.Class = classes[rng.Intn(len(classes))]
 	switch q.Class {
 	case "valid":
@@ -506,6 +511,26 @@ func (e *c25Env) gen(rng *verifkit.Rand, ci int) *c25Req {
 		k := kinds[rng.Intn(len(kinds))]
 		q.pwSent, q.PwKind = k.v, k.k
 		if rng.Chance(1, 3) {
+			q.WL = []string{"*"}
+		}
+	case "unusable-hash", "other-password-hash":
+		// configuration dimension: password_hash is set but is not a bcrypt hash of anything the peer
+		// can present (malformed), or is a good hash of another password. Everything else is valid.
+		p := rng.Token(rng.Range(6, 30)) + "aZ"
+		hb, _ := bcrypt.GenerateFromPassword([]byte(p), bcrypt.MinCost)
+		q.PwSet, q.pwPlain, q.pwHash = true, p, string(hb)
+		if q.Class == "unusable-hash" {
+			q.hashBad = true
+			q.HashKind, q.pwHash = c25BadHash(rng, string(hb), p)
+		}
+		sent := []struct{ k, v string }{{"the-intended-plaintext", p}, {"random", rng.Token(10)}, {"empty", ""},
+			{"the-configured-string", q.pwHash}, {"one-char", "x"}}
+		if q.Class == "other-password-hash" {
+			sent = sent[1:]
+		}
+		k := sent[rng.Intn(len(sent))]
+		q.pwSent, q.PwKind = k.v, k.k
+		if rng.Chance(1, 4) {
 			q.WL = []string{"*"}
 		}
 	case "not-whitelisted":
@@ -699,7 +724,7 @@ func TestVerif_C25(t *testing.T) {
 	}
 	r.Require("forbidden_and_refused", 500)
 	r.Require("allowed_and_marker_started", 100)
-	for _, k := range []string{"disabled", "bad-password", "not-whitelisted", "path-command", "metachar-arg", "absolute-arg"} {
+	for _, k := range []string{"unusable-password-hash", "disabled", "bad-password", "not-whitelisted", "path-command", "metachar-arg", "absolute-arg"} {
 		r.Require("refused_"+k, 30)
 	}
 
@@ -1074,6 +1099,8 @@ type c25Hist struct {
 	pw     string
 	wl     []string
 	cwd    string
+	hashBad  bool
+	hashKind string
 	serial bool // one goroutine drives this handler: requests without "env" can be attributed
 	mu     sync.Mutex
 	held   []*c25Sess
@@ -1118,7 +1145,7 @@ func (x *c25Hist) step(rng *verifkit.Rand, si int) {
 		}
 		return
 	}
-	q := &c25Req{Enabled: true, Mode: "handler-history", WL: x.wl, PwSet: x.pwSet, pwPlain: x.pw,
+	q := &c25Req{Enabled: true, Mode: "handler-history", WL: x.wl, PwSet: x.pwSet, pwPlain: x.pw, hashBad: x.hashBad, HashKind: x.hashKind,
 		ReqID: fmt.Sprintf("h%d_%d_%s", x.ci, si, rng.Token(6)), Cmd: []string{"run", "go", "a"}[rng.Intn(3)]}
 	doc := map[string]any{}
 	// password: right one by default (key absent when none is configured, half of the time)
@@ -1296,6 +1323,10 @@ func c25NewHist(r *verifkit.R, e *c25Env, phase string, ci int, rng *verifkit.Ra
 	if rng.Chance(7, 8) {
 		x.pwSet, x.pw = true, pw
 		cfg.PasswordHash = hash
+		if rng.Chance(1, 5) { // this handler's password_hash is unusable: nothing may start on it
+			x.hashBad = true
+			x.hashKind, cfg.PasswordHash = c25BadHash(rng, hash, pw)
+		}
 	}
 	x.ex = shell.NewExecutor(cfg)
 	x.h = shell.NewHandler(x.ex, x.w, c25Logger())
@@ -1359,4 +1390,25 @@ func c25Histories(r *verifkit.R, e *c25Env) {
 		}
 		wg.Wait()
 	})
+}
+
+// c25BadHash: shapes of a configured password_hash that is not a usable bcrypt hash, derived from
+// a genuine hash h of plaintext p. None of them can be verified against any password.
+func c25BadHash(rng *verifkit.Rand, h, p string) (kind, v string) {
+	rest := h[7:] // after "$2a$04$"
+	shapes := []struct{ k, v string }{
+		{"truncated-1", h[:1]}, {"truncated-7", h[:7]}, {"truncated-20", h[:20]}, {"truncated-40", h[:40]}, {"truncated-58", h[:58]},
+		{"md5crypt", "$1$" + rest[:8] + "$" + rest[8:30]},
+		{"sha512crypt", "$6$rounds=5000$" + rest[:16] + "$" + rest + rest[:26]},
+		{"apr1", "$apr1$" + rest[:8] + "$" + rest[8:30]},
+		{"argon2id", "$argon2id$v=19$m=65536,t=3,p=4$c29tZXNhbHQ$" + rest[:43]},
+		{"version-3a", "$3a$04$" + rest}, {"no-dollar", "2a$04$" + rest},
+		{"cost-00", "$2a$00$" + rest}, {"cost-03", "$2a$03$" + rest}, {"cost-32", "$2a$32$" + rest}, {"cost-99", "$2a$99$" + rest},
+		{"cost-nondigit", "$2a$x4$" + rest},
+		{"non-base64-salt", h[:10] + "!!**" + h[14:]},
+		{"the-plaintext", p}, {"leading-space", " " + h}, {"junk-80", strings.Repeat("Ab3", 27)}, {"single-char", "x"},
+		{"sha256-hex", "5e884898da28047151d0e56f8dc6292773603d0d6aabbdd62a11ef721d1542d8"},
+	}
+	sh := shapes[rng.Intn(len(shapes))]
+	return sh.k, sh.v
 }
